@@ -116,19 +116,19 @@ def build_routines_json(
         elif info.type == SsbRoutineType.ACTOR:
             routine = {
                 "type": "ACTOR",
-                "target_id": info.linked_to if info.linked_to is not -1 else info.linked_to_name,
+                "target_id": info.linked_to if info.linked_to_name is None else info.linked_to_name,
                 "ops": build_ops(ops, op_positions),
             }
         elif info.type == SsbRoutineType.OBJECT:
             routine = {
                 "type": "OBJECT",
-                "target_id": info.linked_to if info.linked_to is not -1 else info.linked_to_name,
+                "target_id": info.linked_to if info.linked_to_name is None else info.linked_to_name,
                 "ops": build_ops(ops, op_positions),
             }
         elif info.type == SsbRoutineType.PERFORMER:
             routine = {
                 "type": "PERFORMER",
-                "target_id": info.linked_to if info.linked_to is not -1 else info.linked_to_name,
+                "target_id": info.linked_to if info.linked_to_name is None else info.linked_to_name,
                 "ops": build_ops(ops, op_positions),
             }
         else:
